@@ -40,5 +40,5 @@ with open('seeded/MATRIX.md', 'w') as f:
             '| change | checks that report a violation |\n|---|---|\n')
     for r in rows:
         f.write('| %s | %s |\n' % (r[0], r[1].strip() or '(none)'))
-print(open('seeded/MATRIX.md').read())
+pass
 EOP
